@@ -308,14 +308,18 @@ func (s *Segment) writePtr(off address, src Ptr, forceCopy bool) error {
 			return nil
 		}
 		if forceCopy || src.seg.msg != s.msg || st.flags&isListMember != 0 {
-			newSeg, newAddr, err := alloc(s, st.size.totalSize())
+			// Members of byte, 2-byte and 4-byte lists have a data section
+			// smaller than a word; a stand-alone struct is word-aligned.
+			dstSize := st.size
+			dstSize.DataSize = dstSize.DataSize.padToWord()
+			newSeg, newAddr, err := alloc(s, dstSize.totalSize())
 			if err != nil {
 				return annotate(err).errorf("write pointer: copy")
 			}
 			dst := Struct{
 				seg:        newSeg,
 				off:        newAddr,
-				size:       st.size,
+				size:       dstSize,
 				depthLimit: maxDepth,
 				// clear flags
 			}
